@@ -380,6 +380,14 @@ class Interp:
         f = self.ev(n.func, env)
         if isinstance(f, FuncRef):
             return self.call_function(f.node, args, kwargs)
+        # list methods of the fragment: xs.append(x), xs.extend(ys) (in place, like xs += [...])
+        if isinstance(f, tuple) and f and f[0] == 'attr' and isinstance(f[1], list) and not kwargs:
+            if f[2] == 'append' and len(args) == 1:
+                f[1].append(args[0])
+                return None
+            if f[2] == 'extend' and len(args) == 1 and isinstance(args[0], (list, tuple)):
+                f[1].extend(args[0])
+                return None
         if isinstance(f, tuple) and f and f[0] == 'attr':
             key = 'method:' + f[2]
             if key in self.externals:
